@@ -9,6 +9,7 @@ import (
 	cryptotypes "github.com/cosmos/cosmos-sdk/crypto/types"
 	sdk "github.com/cosmos/cosmos-sdk/types"
 	authtypes "github.com/cosmos/cosmos-sdk/x/auth/types"
+	banktypes "github.com/cosmos/cosmos-sdk/x/bank/types"
 
 	opchildtypes "github.com/initia-labs/OPinit/x/opchild/types"
 	ophosttypes "github.com/initia-labs/OPinit/x/ophost/types"
@@ -174,4 +175,29 @@ func TestC07RegressHookWithdrawalEvent(t *testing.T) {
 		caseFail(t, "D10", "hook withdrew (supply %s) but the transaction announces %+v", tc.l2.Supply(l2d), ws)
 	}
 	regressed(t, "C07", "D10-hook-withdrawal-event")
+}
+
+// D11: a hook payload whose signer address does not decode fails the hook, not the deposit.
+func TestC07RegressUndecodableSigner(t *testing.T) {
+	tc := newTwoChain(tcOpts{nExecutors: 1, fault: true})
+	u := tc.users[1]
+	tc.l2.Fund(u.Addr, coinOf("stake", 10))
+	num, seq := accInfo(tc.l2, u)
+	l2d := tcL2Denom(tc, "uinit")
+	data := signTx(tc.l2, []sdk.Msg{banktypes.NewMsgSend(u.Addr, tc.users[2].Addr, sdk.NewCoins(coinOf(l2d, 1)))}, []cryptotypes.PrivKey{u.Priv}, []uint64{num}, []uint64{seq}, henv.L2ChainID)
+	at := bytes.Index(data, []byte(u.Str))
+	data[at+20], data[at+21] = 0xff, 0x7f
+	_, p := tc.l1Deposit(tc.users[0], u.Str, coinOf("uinit", 1000), data)
+	cs := &c07Case{tc: tc, msg: relayMsg(tc.executors[0].Str, p), toClass: "user", toAddr: u.Addr, signer: u, payload: "bad-signer", expect: "B",
+		hookMaxGas: opchildtypes.DefaultHookMaxGas, sent: map[string]math.Int{}, withdrawn: math.ZeroInt()}
+	pre := cs.snap(tc.l2)
+	tc.l2.Fault.Reset(0, false)
+	r := tc.l2.DeliverWithGas(cs.msg, c07HandlerGas+cs.hookMaxGas)
+	if _, err := cs.judge(tc.l2, pre, r, false); err != nil {
+		caseFail(t, "D11", "%v", err)
+	}
+	if err := cs.liveness(tc.l2); err != nil {
+		caseFail(t, "D11", "bridge blocked: %v", err)
+	}
+	regressed(t, "C07", "D11-undecodable-signer")
 }
